@@ -56,6 +56,17 @@ def fam_timeouts():
                     },
                     'ext': [{'name': 'x0', 'flags': 5}],
                     'ops': ['fire', 'run'], 'pre': [], 'maxops': 2, 'firers': [1], 'flushers': [1], 'dyn': []})
+    # callers that go on after the TimeoutError: a plain yield, a value, another call
+    for t in (0, 1):
+        for after in ([['yield', None], ['ret', 4]], [['yield', 6]], [['call', {'name': 'x1', 'flags': 0}, None], ['ret', 2]]):
+            progs.append({
+                'comps': {'1': {'chan': 'a'}},
+                'handlers': {
+                    '1': _h(1, ['x0'], 0, {'x0': [['call', {'name': 'x1', 'flags': 1}, t]] + after}),
+                    '2': _h(1, ['x1'], 0, {'x1': [['yield', None]] * 3 + [['ret', 7]]}),
+                },
+                'ext': [{'name': 'x0', 'flags': 5}],
+                'ops': ['fire', 'run'], 'pre': [], 'maxops': 2, 'firers': [1], 'flushers': [1], 'dyn': []})
     return progs
 
 
